@@ -47,8 +47,34 @@ def chains(tier):
                 yield {"kind": "msb", "L": L, "m": m, "gap": gap}
 
 
+def mixdir(tier):
+    """a forward and a backward task of one resource that meet in ONE slot (the forward one fills it from the front, the backward one
+    from the back): sub-slot efforts that fit the slot together, either task placed first (open finding D69)"""
+    for L in (60, 30):
+        for ea in (L // 3, L // 2):
+            for ez in (L // 3, L // 2):
+                for first in ("asap", "alap"):
+                    for more in (False, True):
+                        yield {"kind": "mixdir", "L": L, "ea": ea, "ez": ez, "first": first, "more": more}
+
+
+def mixdir_spec(it):
+    L = it["L"]
+    a = {"id": "a", "effort": it["ea"], "alloc": ["r1"], "prio": 900 if it["first"] == "asap" else 300}
+    z = {"id": "z", "effort": it["ez"], "alloc": ["r1"], "sched": "alap", "end": "2025-01-06-10:00" if L == 60 else "2025-01-06-09:30", "prio": 600}
+    tasks = [a, z] + ([{"id": "after", "effort": 60, "alloc": ["r1"], "prio": 100, "deps": ["a"]}] if it["more"] else [])
+    return {"res_min": L if L != 60 else None, "dur": "1w", "resources": [{"id": "r1"}], "tasks": tasks}
+
+
+def trait(item, clause, detail, fid):
+    """Guards --learn: D69 may only be recorded for the mixdir family."""
+    return fid == "D69" and isinstance(item, dict) and item.get("kind") == "mixdir"
+
+
 def to_spec(it):
     k = it["kind"]
+    if k == "mixdir":
+        return mixdir_spec(it)
     if k == "chain":
         L = it["L"]
         tasks = []
@@ -159,11 +185,12 @@ def universe(tier):
     yield from c03.team_blockers(tier)
     from mc.props import c01
     yield from c01.dupids(tier)
+    yield from mixdir(tier)
 
 
 def run(ctx):
     st = Stats()
-    explore(ctx, universe(ctx.tier), "mc.props.c06:evaluate", st, payload=payload, sample_of=sample)
+    explore(ctx, universe(ctx.tier), "mc.props.c06:evaluate", st, payload=payload, sample_of=sample, trait=trait)
     from mc.props import wide
     wide.sweep(ctx, st, "C06")
     common.vacuity_guard(ctx, st)
